@@ -3,7 +3,7 @@
 Translated (p-box operands; the number-operand and conversion guards at the top of add / mul are recognised and skipped):
     classic_frechet_pbox, vectorised_naive_frechet_pbox, nagative_frechet_pbox,
     frechet_pbox_mul, straddle_frechet_pbox, Staircase.balchprod          (mutually recursive: one Fixpoint on explicit fuel)
-    Staircase.add, Staircase.sub, Staircase.mul, Staircase.div
+    Staircase.add, Staircase.sub, Staircase.mul, Staircase.div, and the operators __add__ __sub__ __mul__ __truediv__ (ambient dependency)
 
 Python values of p-box type become terms of type `res pb` (an exception is a value); every sub-expression that can raise is bound
 with rbind in evaluation order.  The recognised constructs and the model primitive each is mapped to:
@@ -51,7 +51,7 @@ class Fn:
 
     def g(self, name):
         """Gallina name of a python name: parameters keep theirs, local names get a prefix (left / right / ... are Coq constants)"""
-        return name if name in ("x", "y", "self", "other", "dependency", "op") else "v_" + name
+        return name if name in ("x", "y", "self", "other", "dependency", "op", "ambient") else "v_" + name
 
     # ---- pure expressions -------------------------------------------------------------------------------------
     def num(self, e, binds):
@@ -132,12 +132,14 @@ class Fn:
             if f == "imposition" and len(e.args) == 2 and not e.keywords:
                 a, b = self.pb(e.args[0], binds), self.pb(e.args[1], binds)
                 return f"(pimp N steps p_lo p_hi {a} {b})"
-            if isinstance(e.func, ast.Attribute) and e.func.attr in self.calls and e.func.attr in ("balchprod", "add", "mul"):
+            if isinstance(e.func, ast.Attribute) and e.func.attr in self.calls and e.func.attr in ("balchprod", "add", "sub", "mul", "div"):
                 recv = self.pb(e.func.value, binds)
                 args = [self.pb(a, binds) if not (isinstance(a, ast.Name) and self.kind.get(a.id) == "dep") else self.g(a.id) for a in e.args]
                 for k in e.keywords:
                     if k.arg == "dependency" and isinstance(k.value, ast.Name) and self.kind.get(k.value.id) == "dep":
                         args.append(self.g(k.value.id))
+                    elif k.arg == "dependency" and ast.unparse(k.value) == "get_current_dependency()" and self.kind.get("ambient") == "dep":
+                        args.append("ambient")          # the ambient setting read from the context variable (C16)
                     else:
                         raise Unsupported(f"{self.name}: keyword {ast.unparse(k)}")
                 return f"({self.calls[e.func.attr]} {recv} {' '.join(args)})"
@@ -357,6 +359,12 @@ def translate(path):
         f = Fn(name, ["self", "other"], {callee: f"gen_{callee} fuel"})
         f.kind["dependency"] = "dep"
         out.append(f"Definition gen_{name} (fuel : nat) (self other : pb) (dependency : dep) : res pb :=\n  {f.block(meth[name].body)}.\n")
+    # -- the bare operators between two p-boxes: the method of the same name under the ambient dependency
+    for dunder, m in (("__add__", "add"), ("__sub__", "sub"), ("__mul__", "mul"), ("__truediv__", "div")):
+        params(meth[dunder], ["self", "other"])
+        f = Fn(dunder, ["self", "other"], {m: f"gen_{m} fuel"})
+        f.kind["ambient"] = "dep"
+        out.append(f"Definition gen_operator_{m} (fuel : nat) (self other : pb) (ambient : dep) : res pb :=\n  {f.block(meth[dunder].body)}.\n")
     out.append("End G.")
     return "\n".join(out)
 
